@@ -247,6 +247,36 @@ def merge : List Bool → List Step → List Step → List (Bool × Step)
   | false :: sch, xs, y :: ys => (false, y) :: merge sch xs ys
   | false :: sch, xs, [] => merge sch xs []
 
+/-! ### any number of concurrent writers -/
+
+/-- a writer: the parameters of its call and the (at most one) fault it meets; a fault position past the end of the
+body means "no fault" -/
+abbrev Writer := Params × Fault
+
+/-- the effect list of a writer's call -/
+def runOf (w : Writer) : List Step := faultedRun w.1 w.2
+
+/-- shared file system, and per writer (by index) its local handle state and the effects it has still to execute -/
+structure CfgN where
+  fs : Fs
+  locs : List Local
+  rem : List (List Step)
+
+def initN (fs : Fs) (ws : List Writer) : CfgN := ⟨fs, ws.map fun _ => {}, ws.map runOf⟩
+
+/-- writer `i` executes its next effect (nothing happens when it has finished or does not exist) -/
+def stepN (i : Nat) (c : CfgN) : CfgN :=
+  match c.rem[i]?, c.locs[i]? with
+  | some (s :: r), some l =>
+      let x := applyStep s ⟨c.fs, l⟩
+      { fs := x.fs, locs := c.locs.set i x.loc, rem := c.rem.set i r }
+  | _, _ => c
+
+/-- a schedule is any list of writer indices: who moves next.  Every prefix of a schedule is a schedule, so "at every
+instant" is "for every schedule"; a writer that is never scheduled again has been killed; the whole system being
+killed is the schedule ending. -/
+def runSched (sch : List Nat) (c : CfgN) : CfgN := sch.foldl (fun c i => stepN i c) c
+
 /-! ### the temporary name -/
 
 def natDigits (n : Nat) : List Char := (Nat.repr n).toList
